@@ -2,7 +2,7 @@
 import engine as E
 import tablecheck
 
-BOUND = {"login", "bootstrapotp", "totp"}
+BOUND = {"login", "bootstrapotp", "totp", "vip", "okta", "oauth2"}
 
 
 def why(loc):
@@ -45,6 +45,17 @@ def run(tier, seed, work, replay):
     res.cov["exhaustive"] = True
     res.cov["handlers_bound"] = sorted(BOUND)
     res.cov["kept_destination"] = sum(1 for e in evs if e["out"]["redirected"] and not e["out"]["profile"])
+    per = {}
+    for e in evs:
+        h = per.setdefault(e["case"]["handler"], {"requests": 0, "redirected": 0, "kept": 0, "notes": 0})
+        h["requests"] += 1
+        h["redirected"] += 1 if e["out"]["redirected"] else 0
+        h["kept"] += 1 if e["out"]["redirected"] and not e["out"]["profile"] else 0
+        h["notes"] += 1 if e["out"].get("note") else 0
+    res.cov["per_handler"] = per
+    dead = [h for h in BOUND if per.get(h, {}).get("kept", 0) == 0 or per[h]["notes"] > 0]
+    if dead:
+        raise E.Inconclusive("handlers bound but never redirecting to a kept destination (dead driver): %s %s" % (dead, per))
     res.assumptions = ["browser resolution rules as in the statement (leading single slash, no backslash second, no control characters)",
                        "net/http replaces CR and LF by spaces when writing headers (applied to the recorded Location)"]
     return res.finish()
